@@ -53,7 +53,9 @@ func c29Build(epoch uint64, recs []c29Rec) *kernel.Node {
 		}
 		return cn[i].IdForNetwork.String() < cn[j].IdForNetwork.String()
 	})
-	return kernel.VerifC29NewNode(fakeNetworkId, epoch, cn, genesis, newFakeStore())
+	node := kernel.VerifC29NewNode(fakeNetworkId, epoch, cn, genesis, newFakeStore())
+	node.IdForNetwork = fakeHash("the-validating-node") // the validating node is none of the generated ones
+	return node
 }
 
 type c29State struct {
@@ -259,7 +261,7 @@ func init() {
 					lines = append(lines, fmt.Sprintf("pledge %s %d", p, ts), fmt.Sprintf("custodian %s %d", p, ts))
 				}
 			}
-			return lines
+			return clkWrap(r, lines, map[string]int{"pledge": 2, "custodian": 2})
 		},
 		Exec: execElection,
 	})
@@ -268,8 +270,11 @@ func init() {
 func c29Hour(epoch, ts uint64) uint64 { return (ts - epoch) / c25Hour % 24 }
 
 func execElection(state *State, line string) Result {
-	t := strings.Fields(line)
+	c, t := parseClk(strings.Fields(line))
 	res := Result{Tags: []string{t[0]}}
+	if c.on {
+		res.Tags = append(res.Tags, fmt.Sprintf("clk:own%d-ts0%d", b2i(c.own), b2i(c.ts0)))
+	}
 	fail := func(key, desc string) {
 		if res.PropKey == "" {
 			res.PropKey, res.PropDesc = "C29:"+key, desc
@@ -422,33 +427,53 @@ func execElection(state *State, line string) Result {
 			}
 			return fmt.Sprintf("ok %d", v)
 		case "pledge", "custodian":
-			ts := u64(t[2])
+			tsTok := u64(t[2])
+			// the time the validator is specified to use, and the timestamp the snapshot carries
+			ts, sts := c.eff(tsTok), c.snapTs(tsTok)
 			op := byte(common.TransactionTypeNodePledge)
 			if t[0] == "custodian" {
 				op = common.TransactionTypeCustodianUpdateNodes
 			}
 			p, ok := resolve(t[1], op, ts)
-			res.LeanIn = fmt.Sprintf("%s %s %d", t[0], p, ts)
+			res.LeanIn = c.prefix() + fmt.Sprintf("%s %s %d", t[0], p, tsTok)
 			if !ok {
 				return "panic"
 			}
 			// election first (a panic of the election is a panic of the validator)
 			st.node.VerifElectSnapshotNode(op, ts)
-			snap := &common.Snapshot{NodeId: p, Timestamp: ts}
+			snap := &common.Snapshot{NodeId: p, Timestamp: sts}
+			st.node.IdForNetwork = fakeHash("the-validating-node")
+			if c.on && c.own {
+				st.node.IdForNetwork = p
+			}
+			defer func() { st.node.IdForNetwork = fakeHash("the-validating-node") }()
 			// with a nil transaction the validator dereferences it right after the gates: an
 			// error return means a gate rejected, the nil dereference means every gate passed
-			_, passed, _ := Catch(func() string {
-				var err error
-				if t[0] == "pledge" {
-					err = st.node.VerifValidateNodePledgeSnapshot(snap, nil, true)
-				} else {
-					err = st.node.VerifValidateCustodianUpdateNodes(snap, nil, true)
+			gates := func() bool {
+				_, passed, _ := Catch(func() string {
+					var err error
+					if t[0] == "pledge" {
+						err = st.node.VerifValidateNodePledgeSnapshot(snap, nil, true)
+					} else {
+						err = st.node.VerifValidateCustodianUpdateNodes(snap, nil, true)
+					}
+					if err == nil {
+						panic("harness: validator accepted a nil transaction")
+					}
+					return ""
+				})
+				return passed
+			}
+			var passed bool
+			withClock(c.on, c.clock, func() { passed = gates() })
+			if c.on && !(c.own && c.ts0) { // a timestamped (or foreign) snapshot: the local clock must not matter
+				var passed2 bool
+				withClock(true, c.otherClock(), func() { passed2 = gates() })
+				if passed2 != passed {
+					fail("decision-depends-on-local-clock", fmt.Sprintf("the gates of the same timestamped %s snapshot pass=%v with the local clock at %d and pass=%v at %d",
+						t[0], passed, c.clock, passed2, c.otherClock()))
 				}
-				if err == nil {
-					panic("harness: validator accepted a nil transaction")
-				}
-				return ""
-			})
+			}
 			if !passed {
 				return "reject"
 			}
